@@ -390,6 +390,7 @@ func runC12(c *Ctx) {
 	}
 	r.Floor("C12.2", 5)
 	r.Floor("C12.3", 3)
+	checkCanSignEquality(c)
 
 	// the signing step: CanSign for every accepted kind (agents: trust-domain rewrite)
 	if sf := p.Func("agent/consul", "(*CAManager).SignCertificate"); sf != nil {
@@ -951,4 +952,45 @@ func checkIdentityUnescaped(c *Ctx) {
 		}
 	}
 	r.Floor("C12.7", 8)
+}
+
+
+// C12.8: the trust-domain allowlist answers true only on an exact string equality between the
+// identity in the request and the signer's own (host for workloads, URI for CA certificates) —
+// not on a prefix, suffix or containment test, which would admit "<trust-domain>.evil.example".
+func checkCanSignEquality(c *Ctx) {
+	p, r := c.P, c.R
+	n := 0
+	for _, f := range p.SrcFuncs("agent/connect") {
+		if f.Name() != "CanSign" || f.Signature.Recv() == nil || f.Signature.Results().Len() != 1 || !isBoolT(f.Signature.Results().At(0).Type()) {
+			continue
+		}
+		n++
+		name := core.FuncName(f)
+		isStr := func(v ssa.Value) bool {
+			b, ok := v.Type().Underlying().(*types.Basic)
+			return ok && b.Kind() == types.String
+		}
+		ok := core.PredicateTrueOnlyBelow(f, func(cv core.CmpView) (bool, bool) {
+			if !isStr(cv.X) || !isStr(cv.Y) {
+				return false, false
+			}
+			if _, isK := cv.X.(*ssa.Const); isK {
+				return false, false
+			}
+			if _, isK := cv.Y.(*ssa.Const); isK {
+				return false, false
+			}
+			return cv.Op == token.EQL, cv.Op == token.NEQ
+		})
+		if ok {
+			r.Hold("C12.8", name, p.FuncPos(f), "signable only on an exact equality of the two identities' host / URI")
+		} else {
+			r.Violate("C12.8", name, p.FuncPos(f), "the trust-domain check can answer true without an exact equality between the requested identity's host and ours (a prefix/contains test, a helper that is not an equality, or an unconditional true): an identity in a foreign trust domain that merely shares a prefix gets a certificate chaining to our root")
+		}
+	}
+	if n == 0 {
+		r.Unresolve("C12.8", "connect.(SpiffeIDSigning).CanSign", "not found")
+	}
+	r.Floor("C12.8", 1)
 }
